@@ -58,7 +58,9 @@ def integrate(
             future_dt = curr_dt
             restart = True
 
-        if np.abs(future_dt - prev_dt) > 0.01 * curr_dt:
+        if (np.abs(future_dt - prev_dt) > 0.01 * curr_dt) or (
+            np.abs(curr_dt - prev_dt) > 0.01 * curr_dt
+        ):
             # Jitter in the timestep, fall back to a lower order method that
             # can handle this.
             restart = True
